@@ -104,6 +104,32 @@ Theorem C19_out_of_range_raises : forall bo wo k x,
 Proof. exact out_of_range_raises_code. Qed.
 Print Assumptions C19_out_of_range_raises.
 
+(* --- builder option repack=True (non-default; outside the four order pairs the property
+   quantifies over).  Full statement: the register round trip for either value of the flag. *)
+Definition C19_full_statement_repack : Prop :=
+  forall repack bo wo vs, wf_values vs = true -> via_registers_statement repack bo wo vs.
+
+(* refuted: repack=True with byte order Little reads registers little-endian while
+   fromRegisters writes them big-endian; U16 0x1234 comes back as 0x3412 *)
+Theorem C19_repack_refuted :
+  exists bo wo vs, wf_values vs = true /\ ~ via_registers_statement true bo wo vs.
+Proof. exact via_registers_repack_refuted. Qed.
+Print Assumptions C19_repack_refuted.
+
+(* the strongest true statement: everything except (repack=True and byte order Little) *)
+Theorem C19_repack_partial : forall repack bo wo vs,
+  (repack = true -> bo = Big) -> wf_values vs = true -> via_registers_statement repack bo wo vs.
+Proof. exact via_registers_repack_partial. Qed.
+Print Assumptions C19_repack_partial.
+
+(* --- coil transport (to_coils -> fromCoils), adjacent to the property: fromCoils drops its
+   wordorder argument, so under word order Little multi-register values come back with
+   their words swapped (model agreement with the real classes is checked on every run) *)
+Theorem C19_coils_refuted :
+  exists bo wo vs, wf_values vs = true /\ via_coils bo wo vs = Ok ([U32 0x33441122], 4%nat) /\ vs = [U32 0x11223344].
+Proof. exact via_coils_refuted. Qed.
+Print Assumptions C19_coils_refuted.
+
 (* non-vacuity: concrete values under all four orders, an odd-length sequence through
    registers, and a well-formed sequence of every type that satisfies the hypotheses *)
 Example C19_nonvacuous :
